@@ -254,6 +254,10 @@ class Interp:
     def call(self, decl, args):
         self.tick()
         env = [{}]
+        if getattr(decl, "variadic", False):
+            k = len(decl.params) - 1
+            backing = Cell([cp(a) for a in args[k:]])
+            args = list(args[:k]) + [SliceV(Ref(backing), len(args) - k)]
         for (n, t), a in zip(decl.params, args):
             env[0][n] = Cell(cp(a))
         try:
